@@ -105,7 +105,8 @@ def check_no_strong(program, rep):
             for _ in range(3):
                 for n in ast.walk(f.node):
                     if isinstance(n, ast.Assign):
-                        t = tainted(n.value, env)
+                        t = tainted(evrules.beta_reduce(program, c, n.value),
+                                    env)
                         for tg in n.targets:
                             for x in ast.walk(tg):
                                 if isinstance(x, ast.Name) and isinstance(
@@ -148,6 +149,8 @@ def check_no_strong(program, rep):
                 if sink_val is None:
                     continue
                 n_sinks += 1
+                sink_val = [evrules.beta_reduce(program, c, v)
+                            for v in sink_val]
                 bad = [v for v in sink_val if tainted(v, env)]
                 rep.check(not bad, 'C10.no-strong', site, n,
                           'no strong reference to the handler flows into the '
